@@ -35,6 +35,7 @@ const (
 	ProofIters         = 13
 	verifyPrimesUntil  = 1000 // Verify uses primes <1000
 	pQBitLenDifference = 3    // >1020-bit P-Q
+	maxXsRejections    = 1000 // GenerateXs gives up after this many candidates outside Z_N^*
 )
 
 type (
@@ -288,6 +289,10 @@ func GenerateXs(m int, k, N *big.Int, ecdsaPub *crypto2.ECPoint) []*big.Int {
 			i++
 		} else {
 			n++
+			// a modulus far below a multiple of 256 bits (or N <= 1) rejects every candidate: do not loop forever
+			if n > maxXsRejections {
+				return nil
+			}
 		}
 	}
 	return ret
